@@ -250,7 +250,7 @@ Definition undecodable : T := L [A 98%N].   (* the document was rejected by the 
 Definition all_some {X} (l : list (option X)) : option (list X) :=
   fold_right (fun x acc => match x, acc with Some v, Some vs => Some (v :: vs) | _, _ => None end) (Some []) l.
 
-Definition run_case (t : T) : T :=
+Definition run_case1 (t : T) : T :=
   match t with
   (* 1: evaluation *)
   | L [A 1%N; L [A sec; A lg; A rec]; L flags; L segs; prov; top; cx; rt] =>
@@ -319,6 +319,13 @@ Definition run_case (t : T) : T :=
   (* 9: hex *)
   | L [A 9%N; S x] => e_opt AZ (parse_hex x)
   | _ => bad
+  end.
+
+(* 10: several cases answered together *)
+Definition run_case (t : T) : T :=
+  match t with
+  | L [A 10%N; L cases] => L (map run_case1 cases)
+  | _ => run_case1 t
   end.
 
 Definition run_line (l : list N) : list N :=
